@@ -96,10 +96,11 @@ var wC21 = weights{"tip": 7, "past": 2, "update": 1, "resubmit": 1, "conflict": 
 
 func TestC21(t *testing.T) {
 	vx.Check(t, vx.Prop[Case]{
-		ID:        "C21",
-		Rule:      "virtual-chain histories mixing updates, misbehaviour/freezing, recovery, deletion of the latest consensus state, time advances and jumps to latestTs+trustingPeriod+{-1,0,+1}ns, and uses of the client (update, VerifyMembership/NonMembership with real proofs against a mirrored app hash, v2 MsgSendPacket, MsgConnectionOpenInit, MsgChannelOpenInit); non-trivial = a use attempted while the model status is not Active, or a status query within 1ns of expiry; distinct by full history",
-		MinNTFrac: 0.4,
-		Gen:       func(t *rapid.T) Case { return genCase(t, wC21, 30, func(i, n int) int { return 5 }) },
-		Run:       runC21(t),
+		ID:          "C21",
+		Rule:        "virtual-chain histories mixing updates, misbehaviour/freezing, recovery, deletion of the latest consensus state, time advances and jumps to latestTs+trustingPeriod+{-1,0,+1}ns, and uses of the client (update, VerifyMembership/NonMembership with real proofs against a mirrored app hash, v2 MsgSendPacket, MsgConnectionOpenInit, MsgChannelOpenInit); non-trivial = a use attempted while the model status is not Active, or a status query within 1ns of expiry; distinct by full history",
+		MinNTFrac:   0.4,
+		Assumptions: []string{"counterparty chain V is virtual: the harness owns its validator keys (ed25519 from secret val-<i>) and signs headers itself", "recovery = ClientKeeper.RecoverClient (MsgRecoverClient after its authority check); upgrades and client genesis import are not exercised", "raw client store parsed by its documented key layout; stored protobuf values decoded with the app codec", "the \"drop\" operation (latest consensus state missing) is state injection: no transaction can delete the latest consensus state"},
+		Gen:         func(t *rapid.T) Case { return genCase(t, wC21, 30, func(i, n int) int { return 5 }) },
+		Run:         runC21(t),
 	})
 }
